@@ -21,6 +21,10 @@ func (o *Optimizer) init() error {
 		return err
 	}
 	o.stmt = stmt
+	err = o.checkFunctionCalls(stmt)
+	if err != nil {
+		return err
+	}
 	switch vstmt := stmt.(type) {
 	case *SelectStmt:
 		o.optimizeSelectExpressions(vstmt)
@@ -34,6 +38,75 @@ func (o *Optimizer) init() error {
 		}
 	}
 	return nil
+}
+
+// checkFunctionCalls refuses calls of unknown functions and calls with a wrong
+// number of arguments before the plan is built, aggregate functions are only
+// known in select fields.
+func (o *Optimizer) checkFunctionCalls(stmt Statement) error {
+	switch vstmt := stmt.(type) {
+	case *SelectStmt:
+		for _, field := range vstmt.Fields {
+			if err := checkExprFunctionCalls(field, true); err != nil {
+				return err
+			}
+		}
+		return checkExprFunctionCalls(vstmt.Where.Expr, false)
+	case *DeleteStmt:
+		return checkExprFunctionCalls(vstmt.Where.Expr, false)
+	case *PutStmt:
+		for _, kvp := range vstmt.KVPairs {
+			if err := checkExprFunctionCalls(kvp.Key, false); err != nil {
+				return err
+			}
+			if err := checkExprFunctionCalls(kvp.Value, false); err != nil {
+				return err
+			}
+		}
+	case *RemoveStmt:
+		for _, key := range vstmt.Keys {
+			if err := checkExprFunctionCalls(key, false); err != nil {
+				return err
+			}
+		}
+	}
+	return nil
+}
+
+func checkExprFunctionCalls(expr Expression, allowAggr bool) error {
+	var ret error
+	expr.Walk(func(e Expression) bool {
+		if ret != nil {
+			return false
+		}
+		fcexpr, ok := e.(*FunctionCallExpr)
+		if !ok {
+			return true
+		}
+		fname, err := GetFuncNameFromExpr(fcexpr)
+		if err != nil {
+			ret = err
+			return false
+		}
+		nargs := len(fcexpr.Args)
+		if fobj, have := GetScalarFunctionByName(fname); have {
+			if !fobj.VarArgs && nargs != fobj.NumArgs {
+				ret = NewSyntaxError(fcexpr.GetPos(), "Function %s require %d arguments but got %d", fobj.Name, fobj.NumArgs, nargs)
+			} else if fobj.VarArgs && nargs < fobj.NumArgs {
+				ret = NewSyntaxError(fcexpr.GetPos(), "Function %s require at least %d arguments but got %d", fobj.Name, fobj.NumArgs, nargs)
+			}
+			return ret == nil
+		}
+		if fobj, have := GetAggrFunctionByName(fname); have && allowAggr {
+			if !fobj.VarArgs && nargs != fobj.NumArgs {
+				ret = NewSyntaxError(fcexpr.GetPos(), "Function %s require %d arguments but got %d", fobj.Name, fobj.NumArgs, nargs)
+			}
+			return ret == nil
+		}
+		ret = NewSyntaxError(fcexpr.GetPos(), "Cannot find function %s", fname)
+		return false
+	})
+	return ret
 }
 
 func (o *Optimizer) optimizeDeleteExpressions(stmt *DeleteStmt) {
